@@ -58,7 +58,12 @@ func gen(p *simrt.Tape) any {
 	period := epoch * time.Duration(pl.EpochsPerPeriod)
 	// start: first period of the chain (before/at genesis, early), or shortly before / at / after a period boundary
 	prepStart := false
-	switch p.Pick(7) {
+	tickerStart := false
+	switch p.Pick(8) {
+	case 7:
+		// in the epoch before the one in which the epoch ticker sets up the next period (5 epochs ahead of it)
+		pl.StartOffset = period - 6*epoch + time.Duration(p.Intn(int(epoch/time.Millisecond)))*time.Millisecond
+		tickerStart = true
 	case 6:
 		// inside the one epoch that is exactly the preparation lead (5 epochs) before the
 		// boundary: only the start-up path can schedule the next period; run across the boundary
@@ -105,6 +110,8 @@ func gen(p *simrt.Tape) any {
 		// a batch signer (Dirk-like) can leave out one entry
 		pl.SyncZero, pl.SyncZeroSig = true, pl.Ours[p.Pick(len(pl.Ours))]
 		pl.AccountKind = int(KindMulti)
+		// ... for good, or in one slot only (one request that fails)
+		pl.SyncZeroOnce, pl.SyncZeroSlot = p.Bool(), startSlot+1+uint64(p.Intn(3))
 	case 2:
 		if p.Bool() {
 			// ... or only the entry of the last signing step of an aggregating member
@@ -112,6 +119,10 @@ func gen(p *simrt.Tape) any {
 			pl.AccountKind = int(KindMulti)
 			pl.SyncCommitteeSize = 8 // few subcommittee seats: several of ours aggregate in one slot
 		}
+	}
+	// a validator that has exited (it no longer attests) but is still eligible for sync committee duty
+	if p.Pct(25) || (tickerStart && p.Pct(60)) {
+		pl.Exited = []int{pl.Ours[p.Pick(len(pl.Ours))]}
 	}
 	if p.Pct(25) {
 		pl.Faults = map[string][]Outcome{"bn0/BeaconBlockRoot": {{}, {Kind: "error"}, {}, {}, {Kind: "error"}}}
@@ -257,6 +268,32 @@ func oracle(rec *syssim.Record, out *sim.Outcome) *simrt.Violation {
 				return Viol("C15/period-never-prepared", "incarnation %d (alive from %v) never asked for the sync committee duties of period %d, of which validator %d is a member; slot %d of its window passed without a message", inc.N, inc.Start, period, member, s)
 			}
 		}
+		// every request for a period's duties names every validator vouch manages that is a member of that period's
+		// committee, whether or not it is still active (what is owed below is read off the answers: a validator
+		// that was never asked about would be owed nothing)
+		for _, f := range rec.H.Fetches {
+			if f.Kind != "sync" || f.Inc != inc.N {
+				continue
+			}
+			asked := map[int]bool{}
+			for _, v := range f.Indices {
+				asked[v] = true
+			}
+			for _, v := range rec.Model.SortedOurs() {
+				if _, in := rec.Model.SyncTable(f.Epoch)[v]; in && !asked[v] {
+					exited := ""
+					for _, x := range pl.Exited {
+						if x == v {
+							exited = " (it has exited, but remains eligible for sync committee duty)"
+						}
+					}
+					return Viol("C15/member-not-asked-for", "the sync committee duties request of %v for epoch %d names validators %v; validator %d, which vouch manages and which is a member of that period's committee, is not among them%s", f.T, f.Epoch, f.Indices, v, exited)
+				}
+			}
+			if len(pl.Exited) > 0 {
+				out.Probes["sync-duties-request-with-exited-validator-checked"]++
+			}
+		}
 		var periods []uint64
 		for p := range last {
 			periods = append(periods, p)
@@ -297,7 +334,7 @@ func oracle(rec *syssim.Record, out *sim.Outcome) *simrt.Violation {
 				out.Nontrivial = true
 				for _, v := range members {
 					hidden := pl.HideSync && pl.HideSyncAccount == v
-					zeroed := pl.SyncZero && pl.SyncZeroSig == v
+					zeroed := pl.SyncZero && pl.SyncZeroSig == v && (!pl.SyncZeroOnce || s == pl.SyncZeroSlot)
 					got := msgs[key{s, v}]
 					var mine []*altair.SyncCommitteeMessage
 					for _, m := range got {
@@ -433,7 +470,20 @@ func checkContributions(rec *syssim.Record, inc *syssim.Incarnation, f *syssim.D
 				}
 			}
 			if proof == nil {
-				continue // no selection proof was obtained (e.g. preparation ran before this incarnation): nothing is owed
+				// no selection proof was obtained.  Nothing is owed if the preparation for the slot ran before this
+				// incarnation or failed; but a preparation of this incarnation that included the member and completed
+				// has to have applied the selection rule to it, which takes a selection proof per subcommittee
+				for _, inv := range rec.Invs("sync-prepare") {
+					if inv.Inc != inc.N || inv.Slot != s || inv.EndStep == 0 {
+						continue
+					}
+					for _, pv := range inv.Validators {
+						if pv == v && len(pl.SignerFaults) == 0 && pl.SignerSlow == 0 {
+							return Viol("C15/member-without-selection-proof", "the preparation for slot %d (at %v) included member %d, which sits in subcommittee %d, and completed, but the signer was never asked for that member's selection proof for that slot and subcommittee: the selection rule was not applied to it", s, inv.T, v, sc)
+						}
+					}
+				}
+				continue
 			}
 			want := isSyncAggregator(c, proof)
 			var found *altair.SignedContributionAndProof
@@ -453,8 +503,11 @@ func checkContributions(rec *syssim.Record, inc *syssim.Incarnation, f *syssim.D
 				if pl.SyncZero && pl.SyncZeroSig != v {
 					return Viol("C15/other-members-suppressed", "slot %d member %d is the selected aggregator of subcommittee %d but no contribution was submitted (member %d got no message signature)", s, v, sc, pl.SyncZeroSig)
 				}
-				if pl.SyncZero && pl.SyncZeroSig == v {
+				if pl.SyncZero && pl.SyncZeroSig == v && (!pl.SyncZeroOnce || s == pl.SyncZeroSlot) {
 					continue
+				}
+				if pl.SyncZero && pl.SyncZeroSig == v {
+					return Viol("C15/member-dropped-after-one-failed-signature", "slot %d member %d is the selected aggregator of subcommittee %d but no contribution was submitted; its message signature failed once, in slot %d, and has been given ever since", s, v, sc, pl.SyncZeroSlot)
 				}
 				if pl.ContribZero {
 					return Viol("C15/other-members-suppressed", "slot %d member %d is the selected aggregator of subcommittee %d but no contribution was submitted (member %d got no contribution signature)", s, v, sc, pl.ContribZeroSig)
